@@ -626,6 +626,13 @@ func c12Classify(sp *C12Spec, obs []c12StepObs) (sig string, what string) {
 		var bad []string
 		kinds := map[string]bool{}
 		lenOnly := true
+		// does the owner the step itself set through (under that very name)
+		// misreport its own map?  Then it is the owner's own map law that is
+		// broken, not sharing with somebody else.
+		ownBad := false
+		isOwn := func(j int) bool {
+			return op.Op == "set" && op.O != nil && sp.Watch[j] == *op.O
+		}
 		for j := range exp {
 			var got *c12Entry
 			if j < len(obs[i].Dump) {
@@ -642,6 +649,11 @@ func c12Classify(sp *C12Spec, obs []c12StepObs) (sig string, what string) {
 				if !valsSame {
 					lenOnly = false
 				}
+				// (a stale handle still reads its own value; only the length
+				// shown for its column is off, so a handle counts only by values)
+				if isOwn(j) && (!valsSame || op.O.K != "handle") {
+					ownBad = true
+				}
 				bad = append(bad, fmt.Sprintf("%s reads len=%d vals=%v, its own map says len=%d vals=%v (keys %v; 0=nil, v+1)",
 					sp.Watch[j], got.Len, got.Vals, exp[j].Len, exp[j].Vals, c12KeyNames(sp.Keys)))
 			}
@@ -649,6 +661,9 @@ func c12Classify(sp *C12Spec, obs []c12StepObs) (sig string, what string) {
 		if len(bad) > 0 {
 			what = fmt.Sprintf("after step %d (%s): %s", i, op.Go(), strings.Join(bad, "; "))
 			switch {
+			case ownBad:
+				sig = "owner-map-law"
+				lenOnly = false
 			case kinds["col"] || kinds["handle"]:
 				sig = "column-handle-stale-after-growth"
 			case kinds["cell"] || kinds["det"]:
@@ -656,7 +671,9 @@ func c12Classify(sp *C12Spec, obs []c12StepObs) (sig string, what string) {
 			default:
 				sig = "owner-map-law"
 			}
-			if lenOnly {
+			// (a stale handle's own reads are right and only the length the
+			// table prints for its column is off: same class, same sig)
+			if lenOnly && sig != "column-handle-stale-after-growth" {
 				sig += "-chain-length"
 			}
 			return
